@@ -71,24 +71,24 @@ fn p_of(n: u8) -> P {
 }
 
 // all u64 values, fixed-size variants (frame = 4 tag + 16 + 8 checksum)
-// @harness name=c12_rt_vote prop=C12 tier=quick timeout=900
+// @harness name=c12_rt_vote prop=C12 tier=quick timeout=900 replay=playback
 rt_harness!(c12_rt_vote, 34, WTypes, 28, WALRecord::SaveVote(any_id()));
-// @harness name=c12_rt_commit prop=C12 tier=quick timeout=900
+// @harness name=c12_rt_commit prop=C12 tier=quick timeout=900 replay=playback
 rt_harness!(c12_rt_commit, 34, WTypes, 28, WALRecord::Commit(any_id()));
-// @harness name=c12_rt_purge prop=C12 tier=quick timeout=900
+// @harness name=c12_rt_purge prop=C12 tier=quick timeout=900 replay=playback
 rt_harness!(c12_rt_purge, 34, WTypes, 28, WALRecord::PurgeUpto(any_id()));
-// @harness name=c12_rt_truncate_none prop=C12 tier=quick timeout=900
+// @harness name=c12_rt_truncate_none prop=C12 tier=quick timeout=900 replay=playback
 rt_harness!(c12_rt_truncate_none, 34, WTypes, 13, WALRecord::TruncateAfter(None));
-// @harness name=c12_rt_truncate_some prop=C12 tier=quick timeout=900
+// @harness name=c12_rt_truncate_some prop=C12 tier=quick timeout=900 replay=playback
 rt_harness!(c12_rt_truncate_some, 34, WTypes, 29, WALRecord::TruncateAfter(Some(any_id())));
 // payload lengths 0..=3 (P writes a length byte + n bytes)
-// @harness name=c12_rt_append_n0 prop=C12 tier=quick timeout=900
+// @harness name=c12_rt_append_n0 prop=C12 tier=quick timeout=900 replay=playback
 rt_harness!(c12_rt_append_n0, 36, WTypes, 29, WALRecord::Append(any_id(), p_of(0)));
-// @harness name=c12_rt_append_n1 prop=C12 tier=quick timeout=900
+// @harness name=c12_rt_append_n1 prop=C12 tier=quick timeout=900 replay=playback
 rt_harness!(c12_rt_append_n1, 36, WTypes, 30, WALRecord::Append(any_id(), p_of(1)));
-// @harness name=c12_rt_append_n3 prop=C12 tier=quick timeout=900
+// @harness name=c12_rt_append_n3 prop=C12 tier=quick timeout=900 replay=playback
 rt_harness!(c12_rt_append_n3, 36, WTypes, 32, WALRecord::Append(any_id(), p_of(3)));
-// @harness name=c12_rt_append_n2 prop=C12 tier=thorough timeout=900
+// @harness name=c12_rt_append_n2 prop=C12 tier=thorough timeout=900 replay=playback
 rt_harness!(c12_rt_append_n2, 36, WTypes, 31, WALRecord::Append(any_id(), p_of(2)));
 
 /// State with the Option pattern `pat` (bit k set = k-th field is Some; order
@@ -194,21 +194,21 @@ macro_rules! rt_state_harness {
     };
 }
 
-// @harness name=c12_rt_state_k1f prop=C12 tier=quick timeout=1500
+// @harness name=c12_rt_state_k1f prop=C12 tier=quick timeout=1500 replay=playback
 rt_state_harness!(c12_rt_state_k1f, 0x1f);
-// @harness name=c12_rt_state_k00 prop=C12 tier=quick timeout=900
+// @harness name=c12_rt_state_k00 prop=C12 tier=quick timeout=900 replay=playback
 rt_state_harness!(c12_rt_state_k00, 0);
-// @harness name=c12_rt_state_k15 prop=C12 tier=quick timeout=1200
+// @harness name=c12_rt_state_k15 prop=C12 tier=quick timeout=1200 replay=playback
 rt_state_harness!(c12_rt_state_k15, 0x15);
-// @harness name=c12_rt_state_k0a prop=C12 tier=quick timeout=1200
+// @harness name=c12_rt_state_k0a prop=C12 tier=quick timeout=1200 replay=playback
 rt_state_harness!(c12_rt_state_k0a, 0x0a);
-// @harness name=c12_rt_state_k03 prop=C12 tier=thorough timeout=1200
+// @harness name=c12_rt_state_k03 prop=C12 tier=thorough timeout=1200 replay=playback
 rt_state_harness!(c12_rt_state_k03, 0x03);
-// @harness name=c12_rt_state_k1c prop=C12 tier=thorough timeout=1200
+// @harness name=c12_rt_state_k1c prop=C12 tier=thorough timeout=1200 replay=playback
 rt_state_harness!(c12_rt_state_k1c, 0x1c);
-// @harness name=c12_rt_state_k10 prop=C12 tier=thorough timeout=1200
+// @harness name=c12_rt_state_k10 prop=C12 tier=thorough timeout=1200 replay=playback
 rt_state_harness!(c12_rt_state_k10, 0x10);
-// @harness name=c12_rt_state_k0f prop=C12 tier=thorough timeout=1200
+// @harness name=c12_rt_state_k0f prop=C12 tier=thorough timeout=1200 replay=playback
 rt_state_harness!(c12_rt_state_k0f, 0x0f);
 
 // ---------------------------------------------------------------- decoding
@@ -274,11 +274,11 @@ macro_rules! dec_harness {
     };
 }
 
-// @harness name=c12_dec_vote_k prop=C12 tier=quick timeout=900
+// @harness name=c12_dec_vote_k prop=C12 tier=quick timeout=900 replay=playback
 dec_harness!(c12_dec_vote_k, 20, decode_total_fixed::<14>(0));
-// @harness name=c12_dec_commit_k prop=C12 tier=quick timeout=900
+// @harness name=c12_dec_commit_k prop=C12 tier=quick timeout=900 replay=playback
 dec_harness!(c12_dec_commit_k, 20, decode_total_fixed::<14>(2));
-// @harness name=c12_dec_purge_k prop=C12 tier=quick timeout=900
+// @harness name=c12_dec_purge_k prop=C12 tier=quick timeout=900 replay=playback
 dec_harness!(c12_dec_purge_k, 20, decode_total_fixed::<14>(4));
 
 /// TruncateAfter: Option tag byte concrete (`opt`: 0, 1, or an invalid value).
@@ -316,11 +316,11 @@ fn decode_truncate(opt: u8) {
     }
 }
 
-// @harness name=c12_dec_truncate_none_k prop=C12 tier=quick timeout=900
+// @harness name=c12_dec_truncate_none_k prop=C12 tier=quick timeout=900 replay=playback
 dec_harness!(c12_dec_truncate_none_k, 20, decode_truncate(0));
-// @harness name=c12_dec_truncate_some_k prop=C12 tier=quick timeout=900
+// @harness name=c12_dec_truncate_some_k prop=C12 tier=quick timeout=900 replay=playback
 dec_harness!(c12_dec_truncate_some_k, 20, decode_truncate(1));
-// @harness name=c12_dec_truncate_bad_k prop=C12 tier=quick timeout=900 allow_unsat=accepted
+// @harness name=c12_dec_truncate_bad_k prop=C12 tier=quick timeout=900 allow_unsat=accepted replay=playback
 dec_harness!(c12_dec_truncate_bad_k, 20, decode_truncate(2));
 
 /// Append: payload length byte concrete.
@@ -350,13 +350,13 @@ fn decode_append(n: u8) {
     }
 }
 
-// @harness name=c12_dec_append_n0_k prop=C12 tier=quick timeout=900
+// @harness name=c12_dec_append_n0_k prop=C12 tier=quick timeout=900 replay=playback
 dec_harness!(c12_dec_append_n0_k, 22, decode_append(0));
-// @harness name=c12_dec_append_n1_k prop=C12 tier=quick timeout=900
+// @harness name=c12_dec_append_n1_k prop=C12 tier=quick timeout=900 replay=playback
 dec_harness!(c12_dec_append_n1_k, 22, decode_append(1));
-// @harness name=c12_dec_append_n3_k prop=C12 tier=quick timeout=900
+// @harness name=c12_dec_append_n3_k prop=C12 tier=quick timeout=900 replay=playback
 dec_harness!(c12_dec_append_n3_k, 22, decode_append(3));
-// @harness name=c12_dec_append_n2_k prop=C12 tier=thorough timeout=900
+// @harness name=c12_dec_append_n2_k prop=C12 tier=thorough timeout=900 replay=playback
 dec_harness!(c12_dec_append_n2_k, 22, decode_append(2));
 
 /// State record with the five Option tags fixed by `pat` (bit k set = Some),
@@ -427,23 +427,23 @@ fn decode_state_pattern(pat: u8, ver: u8) {
     }
 }
 
-// @harness name=c12_dec_state_p00 prop=C12 tier=quick timeout=900
+// @harness name=c12_dec_state_p00 prop=C12 tier=quick timeout=900 replay=playback
 dec_harness!(c12_dec_state_p00, 34, decode_state_pattern(0, 1));
-// @harness name=c12_dec_state_p1f prop=C12 tier=quick timeout=900
+// @harness name=c12_dec_state_p1f prop=C12 tier=quick timeout=900 replay=playback
 dec_harness!(c12_dec_state_p1f, 34, decode_state_pattern(0x1f, 1));
-// @harness name=c12_dec_state_p15 prop=C12 tier=quick timeout=900
+// @harness name=c12_dec_state_p15 prop=C12 tier=quick timeout=900 replay=playback
 dec_harness!(c12_dec_state_p15, 34, decode_state_pattern(0x15, 1));
-// @harness name=c12_dec_state_p0a prop=C12 tier=quick timeout=900
+// @harness name=c12_dec_state_p0a prop=C12 tier=quick timeout=900 replay=playback
 dec_harness!(c12_dec_state_p0a, 34, decode_state_pattern(0x0a, 1));
-// @harness name=c12_dec_state_badver prop=C12 tier=quick timeout=900 allow_unsat=accepted
+// @harness name=c12_dec_state_badver prop=C12 tier=quick timeout=900 allow_unsat=accepted replay=playback
 dec_harness!(c12_dec_state_badver, 34, decode_state_pattern(0x1f, 2));
-// @harness name=c12_dec_state_p03 prop=C12 tier=thorough timeout=900
+// @harness name=c12_dec_state_p03 prop=C12 tier=thorough timeout=900 replay=playback
 dec_harness!(c12_dec_state_p03, 34, decode_state_pattern(0x03, 1));
-// @harness name=c12_dec_state_p1c prop=C12 tier=thorough timeout=900
+// @harness name=c12_dec_state_p1c prop=C12 tier=thorough timeout=900 replay=playback
 dec_harness!(c12_dec_state_p1c, 34, decode_state_pattern(0x1c, 1));
-// @harness name=c12_dec_state_p10 prop=C12 tier=thorough timeout=900
+// @harness name=c12_dec_state_p10 prop=C12 tier=thorough timeout=900 replay=playback
 dec_harness!(c12_dec_state_p10, 34, decode_state_pattern(0x10, 1));
-// @harness name=c12_dec_state_p0f prop=C12 tier=thorough timeout=900
+// @harness name=c12_dec_state_p0f prop=C12 tier=thorough timeout=900 replay=playback
 dec_harness!(c12_dec_state_p0f, 34, decode_state_pattern(0x0f, 1));
 
 /// Every proper prefix (concrete lengths 0..L, fresh symbolic bytes each) of a
@@ -471,9 +471,9 @@ fn decode_prefixes<const L: usize>(tag: u32) {
     }
 }
 
-// @harness name=c12_dec_prefix_commit_k prop=C12 tier=quick timeout=900
+// @harness name=c12_dec_prefix_commit_k prop=C12 tier=quick timeout=900 replay=playback
 dec_harness!(c12_dec_prefix_commit_k, 20, decode_prefixes::<14>(2));
-// @harness name=c12_dec_prefix_vote_k prop=C12 tier=thorough timeout=900
+// @harness name=c12_dec_prefix_vote_k prop=C12 tier=thorough timeout=900 replay=playback
 dec_harness!(c12_dec_prefix_vote_k, 20, decode_prefixes::<14>(0));
 
 /// Unknown record types are rejected whatever follows (concrete sample of
@@ -500,7 +500,7 @@ fn decode_badtag() {
     }
 }
 
-// @harness name=c12_dec_badtag_k prop=C12 tier=quick timeout=600
+// @harness name=c12_dec_badtag_k prop=C12 tier=quick timeout=600 replay=playback
 dec_harness!(c12_dec_badtag_k, 20, decode_badtag());
 
 /// Wide (u64) ids: decode of an arbitrary 28-byte Commit frame.
@@ -527,7 +527,7 @@ fn decode_commit_w() {
     }
 }
 
-// @harness name=c12_dec_commit_w prop=C12 tier=quick timeout=1200
+// @harness name=c12_dec_commit_w prop=C12 tier=quick timeout=1200 replay=playback
 dec_harness!(c12_dec_commit_w, 34, decode_commit_w());
 
 // @harness name=zz_selftest_fail prop=SELFTEST tier=quick timeout=60 replay=playback
